@@ -382,7 +382,8 @@ pub fn frags(rng: &mut crate::rng::Rng, kind: usize, maxn: usize) -> Vec<F> {
 }
 
 pub fn lws(rng: &mut crate::rng::Rng, kind: usize) -> Vec<f64> {
-    let n = rng.below(4);
+    // up to five entries: the width of line k is entry k, the last entry from there on
+    let n = rng.below(6);
     (0..n).map(|_| { let x = num(rng, kind); if x.is_nan() { 0.0 } else { x } }).collect()
 }
 
